@@ -46,6 +46,11 @@ pub const FAULT_CLASSES: &[&str] = &[
     "index_too_large_after_valid_access", "unknown_method_after_known_method", "unknown_field_after_known_field",
     "divide_by_zero_after_valid_division", "operand_kind_after_valid_operation", "unknown_function_after_known_function",
     "builtin_arity_after_valid_call", "size_negative_after_valid_array",
+    // an object that does not define a comparison and whose parent chain ends in null must not borrow null's built-ins
+    "object_without_equality_compared", "object_without_inequality_compared", "object_without_eq_method_called", "inherited_chain_to_null_compared",
+    // a name declared in a block is unknown once that block has closed, also from inside a later block of the same frame
+    "block_local_read_after_block", "block_local_read_in_later_block", "block_local_assigned_in_later_block", "block_local_in_function_later_block",
+    "loop_body_local_read_after_loop",
 ];
 
 pub fn fault(class: &str, k: usize) -> Fault {
@@ -149,6 +154,19 @@ pub fn fault(class: &str, k: usize) -> Fault {
         }
         "builtin_arity_after_valid_call" => f("begin let zza = array(2, 0); zza.get(0); zza.set(1, 5); zza.get() end"),
         "size_negative_after_valid_array" => f("begin array(1, 0); array(0, 0); array(0 - 1, 0) end"),
+        "object_without_equality_compared" => f("(object begin let a = 1; end) == 1"),
+        "object_without_inequality_compared" => f("(object begin function m() -> 1; end) != null"),
+        "object_without_eq_method_called" => f("(object begin end).eq(null)"),
+        "inherited_chain_to_null_compared" => f("(object extends (object extends (object begin let a = 1; end) begin end) begin end) == null"),
+        "block_local_read_after_block" => f("begin begin let zzt = 6; zzt end; zzt end"),
+        "block_local_read_in_later_block" => f("begin begin let zzt = 6; zzt end; begin let zzu = 1; zzt + zzu end end"),
+        "block_local_assigned_in_later_block" => f("begin begin let zzt = 6; zzt end; if true then begin zzt <- 2 end end"),
+        "block_local_in_function_later_block" => {
+            let mut x = f(&format!("zzb{}(1)", k));
+            x.defs.push(format!("function zzb{}(a) -> begin begin let zzt = a; zzt end; begin zzt + a end end", k));
+            x
+        }
+        "loop_body_local_read_after_loop" => f("begin let zzi = 0; while zzi < 2 do begin let zzw = zzi; zzi <- zzi + 1 end; begin zzw end end"),
         _ => f("zz_undefined_variable"),
     }
 }
